@@ -56,6 +56,22 @@ CHECKS = {
         note="I/O failures and torn writes are not modelled. Keyspace-list oracle allows empty keyspaces to be listed or not.",
         design="DESIGN.md section 3, C17",
     ),
+    "C01": dict(
+        category="model_checking",
+        engine="E1/E2 Layer B cluster (choice-point exploration by re-execution)",
+        technique="stateless exploration of a real in-process cluster: exhaustive operation histories x deviation-bounded enumeration of every environment choice point (per-RPC deliver/lose request/lose reply, extra flush/repair/restart events, late flushes, closing order) by re-execution from choice prefixes; plus all await-point interleavings (preemption-bounded) of two concurrent client operations",
+        text="Real nodes (Clock, KeyspaceGroup + actors, in-process RPC services, selector, distributor behind a flush gate, poller one cycle at a time, public ReplicatedStoreHandle) are driven through every history of put/del/put_many/del_many (levels None/All, One in thorough) on 2 keys: quick = N=2 with 2 ops <=2 deviations and 3 ops <=1, N=3 2 ops <=1, MemStore variant, concurrency block with <=3 preemptions (~340k executions); thorough = N=2 up to 4 ops / 3 deviations, N=3 up to 3 ops, <=5 preemptions. After the closing exchanges (every ordered pair, order itself a choice) and again after late batch flushes all nodes must return the same live documents, equal per id to the locally issued write with the greatest stamp (from the issuers' storage logs); set/store agreement (C02) is a side condition on every node.",
+        note="Bounded: 2-3 nodes, 2 keys, <=4 operations, <=3 deviations; one forgiveness period; fixed membership; repair RPCs are not faulted (a failed exchange has not completed). In-process transport instead of HTTP/2.",
+        design="DESIGN.md section 3, C01",
+    ),
+    "C06": dict(
+        category="fault_enumeration",
+        engine="E1 Layer B cluster",
+        technique="exhaustive enumeration of layouts x issuer x level x operation kind x prior selection x every assignment of {ack, request lost, reply lost, storage failure} to the other nodes, executed through the public store handle on a real in-process cluster",
+        text="5 (quick) / 11 (thorough) layouts of 2-4 nodes in 1-3 data centres, every issuer, all 8 levels, 2/4 operation kinds, fresh and pre-advanced selector cursors, all 4^(N-1) fault assignments. At the moment the call returns every node's storage is read: Ok implies the issuer and at least the required number of other nodes (and per-DC majorities) hold the write or a newer one; a consistency error must report exactly the number of replicas that applied the write and had their reply delivered, the local write must be in place, and after the faults clear a batch flush plus a repair round must bring it to every node.",
+        note="The issuer's own storage does not fail. Selection failures are only checked to be justified (C15 decides selection).",
+        design="DESIGN.md section 3, C06",
+    ),
     "C02": dict(
         category="model_checking",
         engine="E1 by replay, Layer B single node",
